@@ -33,6 +33,43 @@ Proof.
   apply Z.eqb_eq in Ha. subst a2. unfold hash_rec. rewrite (hash_float_coherent _ _ Hf). reflexivity.
 Qed.
 
+(* arrays and field-wise records: if corresponding elements are related by a relation the element hash respects
+   (e.g. float == with its +-0 identification), the folded hashes coincide *)
+Lemma hash_fold_congr : forall hs1 hs2, hs1 = hs2 -> hash_fold hs1 = hash_fold hs2.
+Proof. intros; subst; reflexivity. Qed.
+
+Lemma hash_array_coherent : forall (A : Type) (R : A -> A -> Prop) (h : A -> Z),
+  (forall x y, R x y -> h x = h y) ->
+  forall xs ys, Forall2 R xs ys -> hash_array h xs = hash_array h ys.
+Proof.
+  intros A R h Hh xs ys F. unfold hash_array. f_equal.
+  induction F; cbn; [reflexivity|]. rewrite (Hh _ _ H), IHF. reflexivity.
+Qed.
+
+Lemma hash_float_array_coherent : forall xs ys,
+  Forall2 (fun a b => f_eqb a b = true) xs ys -> hash_array hash_float xs = hash_array hash_float ys.
+Proof. apply hash_array_coherent. exact hash_float_coherent. Qed.
+
+(* the generic record hash is the fold of its field hashes: record{a: integer, b: number} is an instance *)
+Lemma hash_rec_is_fold : forall a f, hash_rec a f = hash_fold [hash_int a; hash_float f].
+Proof. reflexivity. Qed.
+
+(* pointers, spans, unions: the hash is a function of the compared value (address; address and length, hence the
+   bytes read; the bytes), so == values hash alike *)
+Lemma hash_ptr_coherent : forall a b s, (a =? b) = true -> hash_ptr a s = hash_ptr b s.
+Proof. intros a b s H. apply Z.eqb_eq in H. subst. reflexivity. Qed.
+Lemma hash_span_coherent : forall (mem : Z -> Z) p1 n1 p2 n2,
+  (p1 =? p2) && (Nat.eqb n1 n2) = true ->
+  hash_long (map (fun i => mem (p1 + Z.of_nat i)) (List.seq 0 n1)) = hash_long (map (fun i => mem (p2 + Z.of_nat i)) (List.seq 0 n2)).
+Proof.
+  intros mem p1 n1 p2 n2 H. apply andb_true_iff in H. destruct H as [H1 H2].
+  apply Z.eqb_eq in H1. apply Nat.eqb_eq in H2. subst. reflexivity.
+Qed.
+(* a record with __hash: coherent exactly when the user's method respects the user's equality *)
+Lemma hash_custom_coherent : forall (A : Type) (ueq : A -> A -> bool) (uh : A -> Z),
+  (forall x y, ueq x y = true -> uh x = uh y) -> forall x y, ueq x y = true -> hash_custom uh x = hash_custom uh y.
+Proof. intros A ueq uh H x y E. unfold hash_custom. rewrite (H x y E). reflexivity. Qed.
+
 (* == on floats that are not NaN is an equivalence, so non-NaN float keys meet the hashmap theorems' hypotheses *)
 Lemma f_eqb_refl : forall a, f_isnan a = false -> f_eqb a a = true.
 Proof. intros a H. unfold f_eqb. rewrite H, Z.eqb_refl. reflexivity. Qed.
